@@ -133,7 +133,9 @@ theorem sendFromModule_ras {s s1 : St} {q q1 : Seq} {amt : Nat} {to : Addr}
   · cases e
   · split at e
     · cases e
-    · injection e with e; injection e with e1 _; subst e1; rfl
+    · split at e
+      · cases e
+      · injection e with e; injection e with e1 _; subst e1; rfl
 
 theorem burn_ras {s s1 : St} {q q1 : Seq} {amt : Nat} (e : burn s q amt = .ok (s1, q1)) : s1.ras = s.ras := by
   unfold burn at e; split at e
